@@ -374,7 +374,10 @@ def r_div(x, y):
                 return (rnp.float64(x) / rnp.float64(y)).item()
         if isinstance(x, float) or isinstance(y, float):
             return x / y
-        q = Fraction(x) / Fraction(y)
+        try:
+            q = Fraction(x) / Fraction(y)
+        except TypeError:
+            raise ShimUnsupported(f"division of {type(x).__name__} {x!r} by {type(y).__name__} {y!r}")
         return int(q) if q.denominator == 1 else q
     if is_special(y):
         if y != y or is_special(x):
@@ -689,6 +692,10 @@ def c_op(op, x, y):
 def elem_binop(op, x, y, ld):
     """x, y: elements already cast to the loop dtype ld."""
     k = ld.kind
+    if isinstance(x, rnp.generic):
+        x = x.item()
+    if isinstance(y, rnp.generic):
+        y = y.item()
     if k == 'c' or isinstance(x, Cx) or isinstance(y, Cx):
         return c_op(op, x, y)
     if k == 'f':
